@@ -30,9 +30,12 @@ class VClock(object):
 
   def __init__(self, start=1700000000.0):
     self.now = float(start)
+    # what time.time() reports differs from the loop's own (monotonic) time by this much: a check
+    # sets it to model the wall clock being stepped (NTP step, VM resume); reset at every case
+    self.wall_offset = 0.0
 
   def time(self):
-    return self.now
+    return self.now + self.wall_offset
 
 
 class _Callback(object):
